@@ -9,10 +9,14 @@ import dispatch
 
 RULE = ("exhaustive family on the dyadic grid: tiers of <=3 disjoint intervals with integer boundaries in [0,6] x regions "
         "a<b on the half-integer grid inside the span (plus a==b, a>b) x 3 collision modes x doShrink; random tiers on 1-3 "
-        "digit decimals with regions drawn from boundaries/midpoints/fresh times; point tiers likewise. distinct = distinct "
-        "protocol line; non-trivial = the region touches at least one entry, or entries lie after it with shrinking")
+        "digit decimals with regions drawn from boundaries/midpoints/fresh times, one in four of them with an end before "
+        "the span's start or after its end (sticking out of the span, or wholly outside it); point tiers likewise; "
+        "textgrids likewise. distinct = distinct protocol line; non-trivial = the region touches at least one entry, or "
+        "entries lie after it with shrinking")
 TRUSTED = ["oracle: direct Python statement of the property (harness/props/C07.py:oracle)"]
-ASSUMPTIONS = ["finite non-negative timestamps; regions inside the tier span",
+ASSUMPTIONS = ["finite timestamps, entries at non-negative times; regions inside the tier span, and (since fix A28) regions "
+               "sticking out of it or outside it: with doShrink exactly the part of the region inside the span is cut out "
+               "(a region that meets the span in at most one time erases nothing), without doShrink the region is used as given",
                "distinct boundary times of the generated tiers differ by more than 1e-9 relative (a fact about this "
                "family's inputs, used by the 1e-9 oracle comparison; NOT a hypothesis of the theorems any more: "
                "deleteEntry matches exactly first, so the theorems hold however close the entries are)",
@@ -61,6 +65,19 @@ def oracle(c, r):
         if r[0] == "err" and r[2]:
             return None
         return Failure(dict(sig, clause="degenerate-region-rejected"), f"region a>=b not rejected by a praatio error: {r}")
+    if c["shrink"]:
+        # only what lies inside the span can be cut out of it (fix A28)
+        a2, b2 = max(a, t["lo"]), min(b, t["hi"])
+        if a2 >= b2:
+            if r[0] == "err":
+                return Failure(dict(sig, clause="no-error", exc=r[1]), f"eraseRegion with a region outside the span raised {r[1]}")
+            s = r[1]
+            if s["es"] != [list(e) for e in t["es"]] or (s["lo"], s["hi"], s["name"], s["k"]) != (t["lo"], t["hi"], t["name"], t["k"]):
+                return Failure(dict(sig, clause="outside-span-unchanged"),
+                               f"a region outside the span [{t['lo']},{t['hi']}] changed the tier: {s}")
+            return None
+        a, b = a2, b2
+        c = dict(c, a=a, b=b)
     exp = expected_entries(c)
     if exp is None:
         if r[0] == "err" and r[1] == "CollisionError":
@@ -152,6 +169,19 @@ def corpus():
     # two different equal-labelled intervals that meet after shrinking (fused by the re-join: same labelling)
     t3 = {"k": "I", "name": "a", "es": [[1.0, 2.0, "x"], [4.0, 5.0, "x"]], "lo": 0.0, "hi": 6.0}
     yield {"op": "ierase", "tier": t3, "a": 2.0, "b": 4.0, "mode": "truncate", "shrink": True, "grid": True}
+    # A28 (fixed): a region sticking out of / lying outside the span was subtracted in full when shrinking
+    e = {"k": "I", "name": "e", "es": [], "lo": 0.0, "hi": 10.0}
+    w = {"k": "I", "name": "w", "es": [[1.0, 4.0, "x"], [5.0, 7.0, "y"]], "lo": 0.0, "hi": 10.0}
+    pt = {"k": "P", "name": "P", "es": [[1.0, "a"], [3.0, "b"], [3.0, "c"], [5.0, "d"], [7.0, "e"], [9.0, "f"]], "lo": 0.0, "hi": 10.0}
+    for m in MODES:
+        yield {"op": "ierase", "tier": e, "a": 5.0, "b": 30.0, "mode": m, "shrink": True, "grid": True}
+    for (a, b) in [(6.0, 15.0), (-5.0, 2.0), (5.0, 30.0), (10.0, 15.0), (12.0, 15.0), (-7.0, -2.0), (-5.0, 15.0)]:
+        for sh in (True, False):
+            yield {"op": "ierase", "tier": w, "a": a, "b": b, "mode": "truncate", "shrink": sh, "grid": True}
+            yield {"op": "perase", "tier": pt, "a": a, "b": b, "mode": "truncate", "shrink": sh, "grid": True}
+    g = {"lo": 0.0, "hi": 10.0, "tiers": [w, dict(pt, name="marks"), e, {"k": "P", "name": "none", "es": [], "lo": 0.0, "hi": 10.0}]}
+    for (a, b) in [(6.0, 15.0), (-5.0, 2.0), (5.0, 30.0), (12.0, 15.0)]:
+        yield {"op": "tg_erase", "tg": g, "a": a, "b": b, "shrink": True, "grid": True}
 
 
 def gen(rnd, tier):
@@ -167,6 +197,8 @@ def tg_case(rnd, domain):
     g = tgops.gen_tg(rnd, domain, valid=rnd.random() < 0.8)
     pool = sorted({x for t in g['tiers'] for x in T.boundary_pool(t, rnd, domain)})
     pool = [x for x in pool if 0 <= x <= g['hi']]
+    if rnd.random() < 0.25:
+        pool = pool + T.outside_times(rnd, domain, g['lo'], g['hi'])
     a, b = rnd.choice(pool), rnd.choice(pool)
     if a > b and rnd.random() < 0.95:
         a, b = b, a
@@ -192,6 +224,8 @@ def gen_tier_level(rnd, tier):
             t = T.gen_ptier(rnd, domain, nmax=6)
             op = "perase"
         pool = [x for x in T.boundary_pool(t, rnd, domain) if t["lo"] <= x <= t["hi"]]
+        if rnd.random() < 0.25:
+            pool = pool + T.outside_times(rnd, domain, t["lo"], t["hi"])
         a, b = rnd.choice(pool), rnd.choice(pool)
         if rnd.random() < 0.93 and a > b:
             a, b = b, a
